@@ -1,9 +1,8 @@
 ON ERROR GOTO Trap
 F% = 0
-OPEN "pre.txt" FOR RANDOM AS #1 LEN = 4
-IF F% = 0 THEN FIELD #1, 4 AS F1$
+OPEN "a.txt" FOR OUTPUT AS #1
 F% = 0
-PRINT #1, "ab"
+PRINT #1, "p" + CHR$(200) + "q"
 PRINT "end"
 END
 Trap:
